@@ -45,6 +45,8 @@ def in_domain(S):
         return False
     if S.get("f5"):
         return False
+    if any(d not in ("FIFO", "LIFO", "SIRO") for d in (S.get("disc") or [])):
+        return False        # custom disciplines (e.g. one that lets customers linger beside a free server) are outside the model
     for s in S["servers"]:
         if s["k"] not in ("int", "inf") or (s["k"] == "int" and s["c"] < 1):
             return False
